@@ -60,6 +60,7 @@ func main() {
 	repo := flag.String("repo", "/repo", "repository root")
 	out := flag.String("out", "", "output directory")
 	sched := flag.Bool("sched", false, "also rewrite package gobinlog for the controlled scheduler")
+	driver := flag.String("driver", "", "with -sched: directory of the driver module github.com/Breeze0806/mysql, whose connection.go / connector.go are rewritten too")
 	flag.Parse()
 	if *out == "" {
 		fatalf("missing -out")
@@ -81,43 +82,63 @@ func main() {
 		if err != nil {
 			fatalf("%v", err)
 		}
-		sort.Strings(files)
-		fset := token.NewFileSet()
-		var parsed []*ast.File
-		var names []string
-		for _, f := range files {
-			if strings.HasSuffix(f, "_test.go") {
-				continue
+		rewritePkg(files, *out, "sched_", true, replace)
+		if *driver != "" {
+			// the driver's context watcher (connection.go / connector.go) becomes a
+			// controlled thread too, so that cancellation during connection setup
+			// is a schedule the explorer decides
+			var dfiles []string
+			for _, n := range []string{"connection.go", "connector.go"} {
+				dfiles = append(dfiles, filepath.Join(*driver, n))
 			}
-			af, err := parser.ParseFile(fset, f, nil, parser.SkipObjectResolution)
-			if err != nil {
-				fatalf("cannot parse %s: %v", f, err)
-			}
-			parsed = append(parsed, af)
-			names = append(names, f)
-		}
-		rw := &rewriter{fset: fset, chanNames: map[string]bool{}, fields: collectFields(parsed)}
-		for _, af := range parsed {
-			rw.collectChanNames(af)
-		}
-		for i, af := range parsed {
-			rw.file(af, names[i])
-			var buf bytes.Buffer
-			buf.WriteString("//go:build go1.18\n\n")
-			cfg := printer.Config{Mode: printer.UseSpaces | printer.TabIndent, Tabwidth: 8}
-			if err := cfg.Fprint(&buf, fset, af); err != nil {
-				fatalf("print %s: %v", names[i], err)
-			}
-			dst := filepath.Join(*out, "sched_"+filepath.Base(names[i]))
-			if err := os.WriteFile(dst, buf.Bytes(), 0o644); err != nil {
-				fatalf("%v", err)
-			}
-			replace[names[i]] = dst
+			rewritePkg(dfiles, *out, "driver_", false, replace)
 		}
 	}
 	ov, _ := json.MarshalIndent(map[string]interface{}{"Replace": replace}, "", " ")
 	if err := os.WriteFile(filepath.Join(*out, "overlay.json"), ov, 0o644); err != nil {
 		fatalf("%v", err)
+	}
+}
+
+// rewritePkg rewrites the given non-test files of one package for the
+// controlled scheduler and registers the twins in the overlay.
+func rewritePkg(files []string, out, prefix string, withFields bool, replace map[string]string) {
+	sort.Strings(files)
+	fset := token.NewFileSet()
+	var parsed []*ast.File
+	var names []string
+	for _, f := range files {
+		if strings.HasSuffix(f, "_test.go") {
+			continue
+		}
+		af, err := parser.ParseFile(fset, f, nil, parser.SkipObjectResolution)
+		if err != nil {
+			fatalf("cannot parse %s: %v", f, err)
+		}
+		parsed = append(parsed, af)
+		names = append(names, f)
+	}
+	fields := map[string]bool{}
+	if withFields {
+		fields = collectFields(parsed)
+	}
+	rw := &rewriter{fset: fset, chanNames: map[string]bool{}, fields: fields, eager: !withFields}
+	for _, af := range parsed {
+		rw.collectChanNames(af)
+	}
+	for i, af := range parsed {
+		rw.file(af, names[i])
+		var buf bytes.Buffer
+		buf.WriteString("//go:build go1.18\n\n")
+		cfg := printer.Config{Mode: printer.UseSpaces | printer.TabIndent, Tabwidth: 8}
+		if err := cfg.Fprint(&buf, fset, af); err != nil {
+			fatalf("print %s: %v", names[i], err)
+		}
+		dst := filepath.Join(out, prefix+filepath.Base(names[i]))
+		if err := os.WriteFile(dst, buf.Bytes(), 0o644); err != nil {
+			fatalf("%v", err)
+		}
+		replace[names[i]] = dst
 	}
 }
 
@@ -128,6 +149,14 @@ type rewriter struct {
 	fields    map[string]bool
 	fname     string
 	nsel      int
+	eager     bool // goroutines of this package are spawned as eager threads (the driver's watcher)
+}
+
+func (r *rewriter) goName() string {
+	if r.eager {
+		return "GoEager"
+	}
+	return "Go"
 }
 
 func (r *rewriter) cannot(n ast.Node, why string) {
@@ -452,7 +481,7 @@ func (r *rewriter) goStmt(g *ast.GoStmt) ast.Stmt {
 		r.cannot(g, "go statement with variadic spread")
 	}
 	if lit, ok := call.Fun.(*ast.FuncLit); ok && len(call.Args) == 0 && lit.Type.Params.NumFields() == 0 {
-		return &ast.ExprStmt{X: &ast.CallExpr{Fun: vrtSel("Go"), Args: []ast.Expr{lit}}}
+		return &ast.ExprStmt{X: &ast.CallExpr{Fun: vrtSel(r.goName()), Args: []ast.Expr{lit}}}
 	}
 	// evaluate function value and arguments now, call later
 	var lhs, rhs []ast.Expr
@@ -470,7 +499,7 @@ func (r *rewriter) goStmt(g *ast.GoStmt) ast.Stmt {
 	body := &ast.BlockStmt{List: []ast.Stmt{&ast.ExprStmt{X: &ast.CallExpr{Fun: fn, Args: args}}}}
 	return &ast.BlockStmt{List: []ast.Stmt{
 		&ast.AssignStmt{Lhs: lhs, Tok: token.DEFINE, Rhs: rhs},
-		&ast.ExprStmt{X: &ast.CallExpr{Fun: vrtSel("Go"), Args: []ast.Expr{
+		&ast.ExprStmt{X: &ast.CallExpr{Fun: vrtSel(r.goName()), Args: []ast.Expr{
 			&ast.FuncLit{Type: &ast.FuncType{Params: &ast.FieldList{}}, Body: body}}}},
 	}}
 }
